@@ -2,6 +2,7 @@ package worlds
 
 import (
 	"fmt"
+	"strings"
 	"time"
 
 	abcitypes "github.com/tendermint/tendermint/abci/types"
@@ -53,6 +54,10 @@ func c13Load(r *simkit.Run, genesis abcitypes.RequestInitChain) (*liveNode, erro
 }
 
 func (n *liveNode) exec(h int64, b *c13Block, now time.Time) (del []abcitypes.ResponseDeliverTx, end abcitypes.ResponseEndBlock) {
+	// the mempool checks every transaction before it gets into a block
+	for _, tx := range b.txs {
+		n.a.CheckTx(abcitypes.RequestCheckTx{Tx: tx})
+	}
 	n.a.BeginBlock(abcitypes.RequestBeginBlock{Header: tmproto.Header{ChainID: govChainID, Height: h, Time: now}})
 	for _, tx := range b.txs {
 		del = append(del, n.a.DeliverTx(abcitypes.RequestDeliverTx{Tx: tx}))
@@ -111,8 +116,16 @@ func runC13(r *simkit.Run) {
 		saves   []int64 // heights at which a save completed
 		inSave  bool
 	}
+	baseStates := map[int64]string{} // crash-free live node, right after the Commit of height h
+	norm := func(st string) string { return strings.ReplaceAll(st, "map(nil)", "map[]") }
 	execute := func(where string, crashOp int, crashAfter int64, faults map[int]string) outcome {
 		var out outcome
+		isBase := crashOp < 0 && crashAfter < 0 && faults == nil
+		// "enough time passed": everything written before the current save is durable (saves
+		// are PersistMinDuration apart); otherwise the disk may have persisted only a prefix
+		// of all directory operations since the start
+		olderDurable := !isBase && c.Bool("older-saves-durable")
+		lastCompletedSave, durableSave := int64(0), int64(0)
 		fsys := simfs.New(func(n int, label string) int { return c.Intn(n, label) })
 		if r.KeepLog {
 			fsys.Log = func(f string, a ...any) { r.Eventf(where+": "+f, a...) }
@@ -144,9 +157,17 @@ func runC13(r *simkit.Run) {
 				del, end := node.exec(h, b, time.Now())
 				cmp(where+" (before crash)", h, b, del, end)
 				opsBefore := fsys.Ops
+				if olderDurable {
+					fsys.SyncAll()
+					durableSave = lastCompletedSave
+				}
 				node.a.Commit()
 				if fsys.Ops > opsBefore && len(faults) == 0 {
 					out.saves = append(out.saves, h)
+					lastCompletedSave = h
+				}
+				if isBase {
+					baseStates[h] = norm(fullState(node.a))
 				}
 				lastCommitted = h
 				if crashAfter == h {
@@ -182,6 +203,18 @@ func runC13(r *simkit.Run) {
 			r.Fail("saved-height-in-future", "after-crash", "%s: loaded height %d, node had committed %d", where, s, lastCommitted)
 		}
 		r.Eventf("%s: restarted at saved height %d (committed %d)", where, s, lastCommitted)
+		if olderDurable && crashed && s < durableSave {
+			r.Fail("previous-state-file-lost", "after-crash", "%s: the save at height %d had completed and was durable, after the crash the node comes up at height %d (files: %v)", where, durableSave, s, fsys.Files())
+		}
+		if olderDurable && crashed && durableSave > 0 {
+			r.Probe("crash-with-durable-previous-file")
+		}
+		if want, ok := baseStates[s]; ok && s > 0 {
+			if got := norm(fullState(node2.a)); got != want {
+				r.Fail("restart-diverges", "loaded-state", "%s: the state loaded at height %d differs from the never-stopped node's state after committing that height:\n got:  %s\n want: %s", where, s, trunc(got, 1500), trunc(want, 1500))
+			}
+			r.Probe("loaded-state-compared")
+		}
 		opsAtRestart := fsys.Ops
 		for i := int(s); i < len(hist); i++ {
 			h := int64(i + 1)
